@@ -30,7 +30,13 @@ const nOps = 8
 
 // do performs operation op on vm with name n and returns an int summarising the result:
 // registration: 1 accepted / 0 rejected; lookup: 1 found / 0 not found.
-func do(vm data.VM, op int, n string, tag int) int {
+// objs[tag] records the object a registration installed / a get-or-create returned.
+var objs [8]any
+
+func do(vm data.VM, op int, n string, tag int) int { return doSlot(vm, op, n, tag, tag) }
+
+// doSlot: tag is the payload identity (constant value), slot is where the installed object is recorded.
+func doSlot(vm data.VM, op int, n string, tag, slot int) int {
 	b2i := func(b bool) int {
 		if b {
 			return 1
@@ -39,11 +45,17 @@ func do(vm data.VM, op int, n string, tag int) int {
 	}
 	switch op {
 	case 0:
-		return b2i(vm.AddClass(node.NewClassStatement(nil, n, "", nil, nil, map[string]data.Method{})) == nil)
+		c := node.NewClassStatement(nil, n, "", nil, nil, map[string]data.Method{})
+		objs[slot] = c
+		return b2i(vm.AddClass(c) == nil)
 	case 1:
-		return b2i(vm.AddFunc(&fn{name: n}) == nil)
+		f := &fn{name: n}
+		objs[slot] = f
+		return b2i(vm.AddFunc(f) == nil)
 	case 2:
-		return b2i(vm.AddInterface(node.NewInterfaceStatement(nil, n, nil, nil)) == nil)
+		it := node.NewInterfaceStatement(nil, n, nil, nil)
+		objs[slot] = it
+		return b2i(vm.AddInterface(it) == nil)
 	case 3:
 		_, ok := vm.GetClass(n)
 		return b2i(ok)
@@ -62,7 +74,9 @@ func do(vm data.VM, op int, n string, tag int) int {
 		}
 		return 1
 	case 7:
-		return b2i(vm.EnsureGlobalZVal(n) != nil)
+		zv := vm.EnsureGlobalZVal(n)
+		objs[slot] = zv
+		return b2i(zv != nil)
 	}
 	return -1
 }
@@ -94,13 +108,39 @@ func H_two() {
 		w := runtime.NewVM(parser.NewParser())
 		var sr [2]int
 		for _, t := range order {
-			sr[t] = do(w, ops[t], names[t], t+1)
+			sr[t] = doSlot(w, ops[t], names[t], t+1, t+5)
 		}
 		if sr == res {
 			match = true
 		}
 	}
 	symx.Assert(match, "results equal those of some sequential order of the same calls")
+	// every registration that reported success is visible to all later lookups, as that very object
+	for t := 0; t < 2; t++ {
+		switch ops[t] {
+		case 0:
+			if res[t] == 1 {
+				c, ok := vm.GetClass(names[t])
+				symx.Assert(ok && any(c) == objs[t+1], "an accepted class registration is what later lookups resolve")
+			}
+		case 1:
+			if res[t] == 1 {
+				f, ok := vm.GetFunc(names[t])
+				symx.Assert(ok && any(f) == objs[t+1], "an accepted function registration is what later lookups resolve")
+			}
+		case 2:
+			if res[t] == 1 {
+				it, ok := vm.GetInterface(names[t])
+				symx.Assert(ok && any(it) == objs[t+1], "an accepted interface registration is what later lookups resolve")
+			}
+		case 5:
+			if res[t] == 1 {
+				symx.Assert(do(vm, 6, names[t], 0) == 10+t+1, "an accepted constant is what later lookups read")
+			}
+		case 7:
+			symx.Assert(any(vm.EnsureGlobalZVal(names[t])) == objs[t+1], "the global cell returned to a caller is the one later callers get")
+		}
+	}
 	// duplicate registration accepted by at most one registrant
 	if ops[0] == ops[1] && names[0] == names[1] && (ops[0] == 0 || ops[0] == 1 || ops[0] == 2 || ops[0] == 5) {
 		symx.Assert(res[0]+res[1] <= 1, "a duplicate name is accepted for at most one registrant")
